@@ -27,6 +27,7 @@ func main() {
 	}
 	runMatrix()
 	runArgProducts()
+	runViews()
 	runArray()
 	runArrayArgProducts(chk.Pick(2, 4))
 	chk.Finish()
@@ -418,9 +419,9 @@ func compareMatrix(r *gozxing.BitMatrix, m *mmodel) string {
 		if pt[0] < 0 {
 			continue
 		}
-		c, _, _, _ := r.At(pt[0], pt[1]).RGBA()
-		if (c == 0) != m.b[pt[1]*m.w+pt[0]] {
-			return fmt.Sprintf("At(%d,%d) colour disagrees with the bit", pt[0], pt[1])
+		c, g, b, a := r.At(pt[0], pt[1]).RGBA()
+		if w := want16(m.b[pt[1]*m.w+pt[0]]); c != w || g != w || b != w || a != 0xffff {
+			return fmt.Sprintf("At(%d,%d) colour %#x,%#x,%#x,%#x disagrees with the bit (model %#x, opaque)", pt[0], pt[1], c, g, b, a, w)
 		}
 	}
 	return ""
@@ -574,6 +575,20 @@ func runMatrix() {
 		func(l *mc.Local, i int) {
 			s := big[i]
 			searchMatrix(l, s.w, s.h, s.init, bd, false, 1<<30)
+		})
+	// size ladder: fast paths chosen by a size threshold sit at powers of two; every operation once
+	var lad []shape
+	for _, wh := range [][2]int{{255, 257}, {256, 256}, {257, 255}, {1025, 2}, {2, 1025}, {512, 33}} {
+		for _, init := range []int{2, 3, 5} {
+			lad = append(lad, shape{wh[0], wh[1], init})
+		}
+	}
+	ld := chk.Pick(1, 2)
+	chk.Range(fmt.Sprintf("BitMatrix size ladder {255x257,256x256,257x255,1025x2,2x1025,512x33} x 3 contents, every operation of the menu, depth %d", ld), len(lad),
+		func(i int) string { return fmt.Sprint(lad[i]) },
+		func(l *mc.Local, i int) {
+			s := lad[i]
+			searchMatrix(l, s.w, s.h, s.init, ld, false, 1<<30)
 		})
 	// deep search around the word boundaries, full menu
 	var deep []shape
@@ -1023,6 +1038,12 @@ func replay(path string) {
 		argOne(chk.NewLocal(), c)
 		fmt.Printf("replay %s%v on %dx%d content %d\n", c.Op, c.Args, c.W, c.H, c.Init)
 		chk.Count("evaluations", 1)
+		return
+	} else if k == "view" {
+		var c viewCase
+		mc.LoadReplay(path, &c)
+		viewOne(chk.NewLocal(), c)
+		fmt.Printf("replay image view %dx%d content %d\n", c.W, c.H, c.Init)
 		return
 	} else if k == "array-args" {
 		var c aargcase
